@@ -1043,6 +1043,36 @@ pub fn edit_tree(rng: &mut Rng, t: &TreeSpec) -> TreeSpec {
   }
 }
 
+/// The same constructor program without observer calls in between.
+pub fn strip_observations(t: &TreeSpec) -> TreeSpec {
+  match t {
+    TreeSpec::Concat { children, how } => TreeSpec::Concat {
+      children: children.iter().map(strip_observations).collect(),
+      how: match how {
+        ConcatHow::AddObserved => ConcatHow::NestedTyped,
+        h => h.clone(),
+      },
+    },
+    TreeSpec::Replace { inner, calls, .. } => TreeSpec::Replace {
+      inner: Box::new(strip_observations(inner)),
+      calls: calls.clone(),
+      observe_at: None,
+    },
+    TreeSpec::Cached { inner, cache_id } => TreeSpec::Cached {
+      inner: Box::new(strip_observations(inner)),
+      cache_id: *cache_id,
+    },
+    TreeSpec::User { inner, id } => TreeSpec::User {
+      inner: Box::new(strip_observations(inner)),
+      id: *id,
+    },
+    TreeSpec::Boxed { inner } => TreeSpec::Boxed {
+      inner: Box::new(strip_observations(inner)),
+    },
+    leaf => leaf.clone(),
+  }
+}
+
 pub fn gen_c14(rng: &mut Rng) -> Scenario {
   let ascii = rng.chance(600);
   let mut cfg = GenCfg::small(ascii);
@@ -1055,7 +1085,9 @@ pub fn gen_c14(rng: &mut Rng) -> Scenario {
     gen_tree(rng, &cfg, &mut ids, cfg.max_depth, &mut budget)
   };
   let mut m = BTreeMap::new();
-  let b = fresh_cache_ids(&p, &mut ids, &mut m);
+  // b = the same constructor calls *without* the observations that P makes
+  // while it is being built (an observer call is not a constructor call)
+  let b = fresh_cache_ids(&strip_observations(&p), &mut ids, &mut m);
   let mut m2 = BTreeMap::new();
   let mut edited = edit_tree(rng, &p);
   for _ in 0..5 {
